@@ -293,6 +293,35 @@ func init() {
 		}
 		return ok && (!listed || roleListed), fmt.Sprintf("g alice->team->admin, p admin d read: Enforce(alice,d,read)=%v GetImplicitUsersForResource(d)=%v", ok, got)
 	}
+	// D33: a failed LoadModel left the enforcer without a model
+	witnesses["D33-failed-loadmodel-drops-model"] = func() (bool, string) {
+		e, _ := casbin.NewSyncedEnforcer(mustModel(rbacText)) // built from a model object: no model path
+		_, _ = e.AddPolicy("alice", "d", "read")
+		lerr := e.LoadModel()
+		res := func() (out string) {
+			defer func() {
+				if r := recover(); r != nil {
+					out = fmt.Sprintf("panic: %v", r)
+				}
+			}()
+			s, err := e.GetAllNamedSubjects("p")
+			return fmt.Sprintf("%v %v", s, err)
+		}()
+		return lerr != nil && strings.HasPrefix(res, "panic"), fmt.Sprintf("LoadModel err=%v; then GetAllNamedSubjects(p): %s", lerr, res)
+	}
+	// D34: a panic in the first phase of SyncedEnforcer.LoadPolicy leaked the read lock
+	witnesses["D34-synced-loadpolicy-leaks-rlock"] = func() (bool, string) {
+		e, _ := casbin.NewSyncedEnforcer(mustModel(rbacText), &panickingAdapter{})
+		func() {
+			defer func() { _ = recover() }()
+			_ = e.LoadPolicy()
+		}()
+		free := e.GetLock().TryLock()
+		if free {
+			e.GetLock().Unlock()
+		}
+		return !free, fmt.Sprintf("after a LoadPolicy whose adapter panicked (recovered by the caller): write lock available=%v", free)
+	}
 	// D30: a rule whose priority does not parse was a barrier for the priority insertion
 	witnesses["D30-unparsable-priority-barrier"] = func() (bool, string) {
 		text := strings.Replace(strings.Replace(rbacText, "some(where (p.eft == allow))", "priority(p.eft) || deny", 1), "p = sub, obj, act", "p = priority, sub, obj, act, eft", 1)
@@ -334,3 +363,20 @@ type failingRM struct {
 }
 
 var errRM = errors.New("injected role manager failure")
+
+// panickingAdapter panics in LoadPolicy once armed (after construction).
+type panickingAdapter struct{ armed bool }
+
+func (a *panickingAdapter) LoadPolicy(m model.Model) error {
+	if a.armed {
+		panic("adapter failure")
+	}
+	a.armed = true
+	return nil
+}
+func (a *panickingAdapter) SavePolicy(m model.Model) error { return nil }
+func (a *panickingAdapter) AddPolicy(sec string, ptype string, rule []string) error { return nil }
+func (a *panickingAdapter) RemovePolicy(sec string, ptype string, rule []string) error { return nil }
+func (a *panickingAdapter) RemoveFilteredPolicy(sec string, ptype string, fieldIndex int, fieldValues ...string) error {
+	return nil
+}
